@@ -386,8 +386,27 @@ def _report(rep, what, payload, found_input=True):
 # C17
 # =================================================================================================
 
+def equ_chain_programs(rng, k):
+    """EQU symbols defined through other EQU symbols, in source order (each definition uses an earlier one): whether they
+    resolve must not depend on the order in which any set or dict of their names happens to be walked"""
+    out = [["BASE EQU $0400\n", "ROWLEN EQU 32\n", "ROW1 EQU BASE+ROWLEN\n", "ROW2 EQU ROW1+ROWLEN\n", "ROW3 EQU ROW2+ROWLEN\n", " LDX #ROW3\n"],
+           [" ORG $1000\n", "MAIN NOP\n", "ENTRY EQU MAIN\n", "VECTOR EQU ENTRY+3\n", " JMP VECTOR\n"]]
+    for _ in range(k):
+        names = []
+        while len(names) < rng.choice([3, 4, 5, 6, 8]):
+            nm = rng.choice("ABCDEFGHIJKLMNOPQRSTUVWXYZ") + "".join(rng.choice("ABCDEFGHIJKLMNOPQRSTUVWXYZ0123456789") for _ in range(rng.randrange(1, 6)))
+            if nm not in names and nm not in ("A", "B", "D", "X", "Y", "U", "S", "PC", "PCR", "DP", "CC"):
+                names.append(nm)
+        lines = ["%s EQU %d\n" % (names[0], rng.choice([1, 5, 32, 100, 1000]))]
+        for a, b in zip(names, names[1:]):
+            lines.append("%s EQU %s\n" % (b, rng.choice([a, a + "+1", a + "+" + names[0], "2+" + a, a + "*2"])))
+        lines.append(" LDX #%s\n" % names[-1])
+        out.append(lines)
+    return out
+
+
 def c17_pool(rng, n):
-    progs = [list(p) for p in INTERNAL_PROGRAMS]
+    progs = [list(p) for p in INTERNAL_PROGRAMS] + equ_chain_programs(rng, 24)
     seen = {tuple(p) for p in progs}
     while len(progs) < n:
         p = asmgen.rand_program(rng)
@@ -1007,10 +1026,25 @@ def run_c18(tier, rng, rep, info, deadline):
             if rng.random() < 0.3:
                 raw = add_equ(rng, raw)
             raws.append(raw)
+        # small programs whose label,PCR operand sits a few bytes inside the 8-bit reach: what is appended after them must
+        # not change how they were sized
+        boundary = set()
+        for _ in range(6):
+            n = rng.randrange(108, 130)
+            mn = rng.choice(["LEAX", "LDA", "LDY", "JSR"])
+            shape = rng.randrange(3)
+            if shape == 0:
+                raw = [" %s DONE,PCR\n" % mn] + asmgen.filler(n) + ["DONE RTS\n"]
+            elif shape == 1:
+                raw = ["TOP NOP\n"] + asmgen.filler(n) + [" %s TOP,PCR\n" % mn, " RTS\n"]
+            else:
+                raw = [" %s DONE,PCR\n" % mn, "MID LEAY MID,PCR\n"] + asmgen.filler(n - 8) + [" LDB MID,PCR\n", "DONE RTS\n"]
+            boundary.add(len(raws))
+            raws.append(raw)
         prelim = asmlib.impl_batch([([" ORG $1000\n"] + r, None) for r in raws])
         cases = []       # dict(relation, program, variant, params, base_index)
         bases = []
-        for raw, po in zip(raws, prelim):
+        for ri, (raw, po) in enumerate(zip(raws, prelim)):
             hist["generated:" + _cls(po)] += 1
             if po[0] != "OK":
                 continue
@@ -1037,6 +1071,11 @@ def run_c18(tier, rng, rep, info, deadline):
                 cases.append({"relation": "layout", "program": base, "variant": layout_lines(rng, base), "params": {}, "base": bi})
             var, n_old = suffix_lines(rng, base, addr_labels)
             cases.append({"relation": "suffix", "program": base, "variant": var, "params": {"n_old": n_old}, "base": bi})
+            if ri in boundary or rng.random() < 0.05:      # a long tail: the program grows past every short-program limit
+                tail = rng.choice([[" RMB 40\n"], [" RMB 300\n", " NOP\n"], asmgen.filler(30)])
+                has_end = bool(base) and (fields(base[-1]) or ("", "", "", ""))[1].upper() == "END"
+                if not has_end:
+                    cases.append({"relation": "suffix", "program": base, "variant": list(base) + tail, "params": {"n_old": len(base)}, "base": bi})
         batch = [(b, None) for b in bases] + [(c["variant"], None) for c in cases]
         impl = asmlib.impl_batch(batch)
         model = asmlib.model_batch(batch)
